@@ -39,7 +39,7 @@ Names20 == AttrNames \ {"x-custom", "Digest", "Link", "Contact Information"}
 PGetF(u, f, c) == [PGet(u) EXCEPT !.fmt = f, !.comp = c]
 PW(u, method, haskey, k, hasmac, anames, enc) ==
     [PGet(u) EXCEPT !.wrap = TRUE, !.w = [method |-> method, haskey |-> haskey, kuid |-> k, hasmac |-> hasmac,
-                                           anames |-> anames, enc |-> enc]]
+                                           anames |-> anames, enc |-> enc, nocp |-> FALSE]]
 
 (* Grid cells are DESCRIPTORS [k, who, v, u, n, i, s, b] with homogeneous field types (TLC cannot
    build a set of requests whose attribute values have different types); MkC13 turns a descriptor
@@ -49,6 +49,7 @@ D(k, who, v, u, n, i, s2, b) == [k |-> k, who |-> who, v |-> v, u |-> u, n |-> n
 LocateFilterOf(n) ==
     CASE n = "@two" -> <<A("Initial Date", 100), A("Initial Date", 101)>>
       [] n = "@three" -> <<A("Initial Date", 100), A("Initial Date", 101), A("Initial Date", 102)>>
+      [] n = "@far" -> <<A("Initial Date", 2147483647)>>     \* stands for a date far outside the calendar (10^17 on the wire)
       [] n = "@typealg" -> <<A("Object Type", "SymmetricKey"), A("Cryptographic Algorithm", "AES")>>
       [] n = "@none" -> <<>>
       [] OTHER -> <<A(n, ValOf(n))>>
@@ -90,6 +91,7 @@ MkC13(d) ==
                                           ELSE IF d.n = "Revoke" THEN PRevoke(d.u, d.s) ELSE PUid(d.u))
       [] d.k = "get" -> P("Get", PGetF(d.u, d.n, d.s))
       [] d.k = "wrap" -> P("Get", PW(d.u, d.n, d.b, d.i, d.s = "mac", d.s = "anames", IF d.s = "ttlv" THEN "TTLV_ENCODING" ELSE "NO_ENCODING"))
+      [] d.k = "wrapnocp" -> P("Get", [PW(d.u, "ENCRYPT", TRUE, d.i, FALSE, FALSE, "NO_ENCODING") EXCEPT !.w.nocp = TRUE])
       [] d.k = "getattrs" -> P("GetAttributes", [uid |-> d.u, names |-> GANames(d.n)])
       [] d.k = "uidop" -> P(d.n, PUid(d.u))
       [] d.k = "revoke" -> P("Revoke", PRevoke(d.u, d.n))
@@ -132,6 +134,7 @@ Grid(s) ==
       \cup {D("get", w, v, 1, "", 0, "EC_PUBLIC_KEY_TYPE_UNCOMPRESSED", FALSE)}
       \cup {D("wrap", w, v, 1, "ENCRYPT", k, "", TRUE) : k \in us}
       \cup {D("wrap", w, v, 1, "ENCRYPT", 0, x, FALSE) : x \in {"mac", ""}}
+      \cup {D("wrapnocp", w, v, 1, "", k, "", TRUE) : k \in us}
       \cup {D("wrap", w, v, 1, "MAC_SIGN", 1, "", TRUE), D("wrap", w, v, 1, "ENCRYPT", 1, "anames", TRUE),
             D("wrap", w, v, 1, "ENCRYPT", 1, "ttlv", TRUE)}
       \cup {D("getattrs", w, v, u, n, 0, "", FALSE) : u \in us, n \in {"", "some", "dup"}}
@@ -140,7 +143,7 @@ Grid(s) ==
       \cup {D("crypto", w, v, u, op, 0, "", hc) : op \in {"Encrypt", "Decrypt", "Sign", "SignatureVerify"}, u \in us, hc \in BOOLEAN}
       \cup {D("mac", w, v, u, "", 0, x, ha) : u \in us, ha \in BOOLEAN, x \in {"data", ""}}
       \cup {D("derive", w, v, u, t, l, "", FALSE) : t \in {"SymmetricKey", "SecretData", "OpaqueData"}, u \in us, l \in {128, 100}}
-      \cup {D("locate", w, v, 0, n, 0, "", FALSE) : n \in (AttrNames \ {"Digest", "Link"}) \cup {"@two", "@three", "@typealg", "@none"}}
+      \cup {D("locate", w, v, 0, n, 0, "", FALSE) : n \in (AttrNames \ {"Digest", "Link"}) \cup {"@two", "@three", "@typealg", "@none", "@far"}}
       \cup {D("page", w, v, o, "", m, "", FALSE) : o \in {0, 5}, m \in {0, 1}}
       \cup {D("query", w, v, 0, "", 0, "", FALSE), D("discover", w, v, 0, "", 0, "", FALSE), D("discover", w, v, 0, "", 0, "", TRUE)}
       \cup (IF v >= 20
